@@ -115,46 +115,57 @@ theorem foc_noClash {cfg : Cfg} {s : State} (h : TInv cfg s.table) (c : Cid) (ma
 theorem setCursor_table (s : State) (sub : SubId) (n : IP) : (setCursor s sub n).table = s.table := by
   cases sub <;> rfl
 
-/-- the lease after the state switch and the `inUse` re-check of `handleDiscover` -/
+/-- the candidate of `handleDiscover` after the state switch: current address / previous offer / nothing -/
+def discCand (l0 : Lease) (now : Nat) (m : Msg) : Lease :=
+  match l0.state with
+  | .allocated => { l0 with offer := if l0.expiry < now then none else l0.ip }
+  | .discover => if l0.xid != m.xid then { l0 with offer := none } else l0
+  | .free => l0
+
+theorem discCand_props (l : Lease) (now : Nat) (m : Msg) :
+    (discCand l now m).ip = l.ip ∧ (discCand l now m).sub = l.sub ∧ (discCand l now m).mac = l.mac ∧
+    (∀ ip, (discCand l now m).offer = some ip → l.offer = some ip ∨ l.ip = some ip) := by
+  cases l with
+  | mk st mac ip offer xid sub expiry =>
+    cases st
+    · simp only [discCand]; exact ⟨trivial, trivial, trivial, fun _ h => Or.inl h⟩
+    · by_cases hx : (xid != m.xid) = true
+      · simp only [discCand, hx, if_true]; exact ⟨trivial, trivial, trivial, by intro a h; simp at h⟩
+      · have hx' : (xid != m.xid) = false := by simpa using hx
+        simp only [discCand, hx', Bool.false_eq_true, if_false]; exact ⟨trivial, trivial, trivial, fun _ h => Or.inl h⟩
+    · simp only [discCand]
+      refine ⟨trivial, trivial, trivial, ?_⟩
+      intro a h
+      by_cases he : expiry < now
+      · simp [he] at h
+      · simp only [he, if_false] at h; exact Or.inr h
+
+/-- the lease after the state switch and the re-check (`inUse`, `takenByOther`) of `handleDiscover` -/
 def discLease (s : State) (now : Nat) (m : Msg) : Lease :=
   let c := clientId m
-  let l0 := findOrCreate s c m.chaddr
-  let la : Lease :=
-    match l0.state with
-    | .allocated => { l0 with offer := if l0.expiry < now then none else l0.ip }
-    | .discover => if l0.xid != m.xid then { l0 with offer := none } else l0
-    | .free => l0
-  if inUse s.table c la.offer then { la with offer := none } else la
+  let la := discCand (findOrCreate s c m.chaddr) now m
+  if inUse s.table c la.offer || takenByOther s la.mac la.offer then { la with offer := none } else la
 
 theorem discLease_props (s : State) (now : Nat) (m : Msg) (l : Lease)
     (hl : findOrCreate s (clientId m) m.chaddr = l) :
     (discLease s now m).ip = l.ip ∧ (discLease s now m).sub = l.sub ∧ (discLease s now m).mac = l.mac ∧
     (∀ ip, (discLease s now m).offer = some ip →
-      inUse s.table (clientId m) (some ip) = false ∧ (l.offer = some ip ∨ l.ip = some ip)) := by
+      (inUse s.table (clientId m) (some ip) = false ∧ takenByOther s l.mac (some ip) = false)
+        ∧ (l.offer = some ip ∨ l.ip = some ip)) := by
   unfold discLease
   simp only [hl]
-  cases hs : l.state <;> simp only []
-  · -- free
-    by_cases hu : inUse s.table (clientId m) l.offer = true
-    · simp [hu]
-    · simp only [hu]; simp; intro ip h; rw [h] at hu; exact ⟨by simpa using hu, Or.inl h⟩
-  · -- discover
-    by_cases hx : (l.xid != m.xid) = true
-    · simp only [hx, if_true]
-      by_cases hu : inUse s.table (clientId m) none = true <;> simp [hu]
-    · have hx' : (l.xid != m.xid) = false := by simpa using hx
-      simp only [hx', Bool.false_eq_true, if_false]
-      by_cases hu : inUse s.table (clientId m) l.offer = true
-      · simp [hu]
-      · simp only [hu]; simp; intro ip h; rw [h] at hu; exact ⟨by simpa using hu, Or.inl h⟩
-  · -- allocated
-    by_cases he : l.expiry < now
-    · simp only [he, if_true]
-      by_cases hu : inUse s.table (clientId m) none = true <;> simp [hu]
-    · simp only [he, if_false]
-      by_cases hu : inUse s.table (clientId m) l.ip = true
-      · simp [hu]
-      · simp only [hu]; simp; intro ip h; rw [h] at hu; exact ⟨by simpa using hu, Or.inr h⟩
+  obtain ⟨h1, h2, h3, h4⟩ := discCand_props l now m
+  by_cases hu : (inUse s.table (clientId m) (discCand l now m).offer
+      || takenByOther s (discCand l now m).mac (discCand l now m).offer) = true
+  · simp only [hu, if_true]
+    exact ⟨h1, h2, h3, by intro ip h; simp at h⟩
+  · simp only [hu]
+    refine ⟨h1, h2, h3, ?_⟩
+    intro ip h
+    simp only [Bool.false_eq_true, if_false] at h
+    rw [h, h3] at hu
+    simp only [Bool.or_eq_true, not_or, Bool.not_eq_true] at hu
+    exact ⟨hu, h4 ip h⟩
 
 /-- the lease stored by a successful `handleDiscover` -/
 def offerLease (s : State) (now : Nat) (m : Msg) (ip : IP) : Lease :=
@@ -245,6 +256,7 @@ structure AckCond (cfg : Cfg) (s : State) (now : Nat) (m : Msg) (l : Lease) : Pr
   fresh : reqKind m = .renewing → ¬ l.expiry < now
   inSub : (reqKind m = .rebinding ∨ reqKind m = .rebooting) →
             (cfg.sub (selSub s m.chaddr)).contains (reqIPOf m) = true
+  untracked : takenByOther s l.mac (some (reqIPOf m)) = false
 
 theorem verdict_ack {cfg : Cfg} {s : State} {now : Nat} {m : Msg} {l : Lease}
     (h : verdict cfg s now m l = .ack) : AckCond cfg s now m l := by
@@ -262,28 +274,34 @@ theorem verdict_ack {cfg : Cfg} {s : State} {now : Nat} {m : Msg} {l : Lease}
       · simp at h1
         unfold selBad at hb
         cases hs : l.state <;> simp [hs] at hb <;> constructor <;> simp_all
-        rw [← hb.2.1.2]; exact hb.2.2
+        · rw [← hb.2.1.1.2]; exact hb.2.1.2
+        · rw [← hb.2.1.1.2, ← hb.1]; exact hb.2.2
+        · rw [← hb.2.1, ← hb.1]; exact hb.2.2
   · -- renewing
-    by_cases hb : renewBad now m l = true
+    by_cases hb : renewBad s now m l = true
     · simp [hb] at h
     · unfold renewBad at hb
       cases hs : l.state <;> simp [hs] at hb <;> constructor <;> simp_all
+      obtain ⟨⟨⟨h1, h2⟩, _⟩, h4⟩ := hb
+      rw [← h1, ← h2]; exact h4
   · -- rebinding
     by_cases h0 : (l.state == .free && attacks cfg s m.chaddr) = true
     · simp [h0] at h
-    · by_cases hb : rebootBad (cfg.sub (selSub s m.chaddr)) m l = true
+    · by_cases hb : rebootBad s (cfg.sub (selSub s m.chaddr)) m l = true
       · simp [h0, hb] at h
       · unfold rebootBad at hb
         cases hs : l.state <;> cases hi : l.ip <;> simp [hs, hi] at hb <;> constructor <;> simp_all
-        obtain ⟨⟨rfl, _⟩, h2⟩ := hb; exact h2
+        · obtain ⟨⟨⟨rfl, _⟩, h2⟩, _⟩ := hb; exact h2
+        · rw [← hb.1.1.2]; exact hb.2
   · -- rebooting
     by_cases h0 : (l.state == .free && attacks cfg s m.chaddr) = true
     · simp [h0] at h
-    · by_cases hb : rebootBad (cfg.sub (selSub s m.chaddr)) m l = true
+    · by_cases hb : rebootBad s (cfg.sub (selSub s m.chaddr)) m l = true
       · simp [h0, hb] at h
       · unfold rebootBad at hb
         cases hs : l.state <;> cases hi : l.ip <;> simp [hs, hi] at hb <;> constructor <;> simp_all
-        obtain ⟨⟨rfl, _⟩, h2⟩ := hb; exact h2
+        · obtain ⟨⟨⟨rfl, _⟩, h2⟩, _⟩ := hb; exact h2
+        · rw [← hb.1.1.2]; exact hb.2
 
 /-- outcome of `handleRequest` -/
 theorem request_outcome (cfg : Cfg) (s : State) (now : Nat) (m : Msg) :
